@@ -1,5 +1,6 @@
-(* Executable model of the listener demultiplexer of sess.go (Listener.packetInput,
-   removeSession, AcceptKCP, UDPSession.Close of an accepted session in its two steps) and of the source-address
+(* Executable model of the listener demultiplexer of sess.go - Listener.packetInput,
+   AcceptKCP, UDPSession.Close of a listener session in its two steps (die closed / flush /
+   Listener.removeSession), Listener.Close with closeBacklog - and of the source-address
    filter of a dialled session's read loop (readloop.go / readloop_linux.go).
 
    No proofs in this file.
@@ -13,7 +14,13 @@
      sess_conv   s.kcp.conv
      gate_ok     the integrity gate at the top of Listener.packetInput: None = dropped by the
                  length test / AEAD open / CRC compare, Some data = the decrypted payload
-                 (the inside of the gate is property C06's model).                       *)
+                 (the inside of the gate is property C06's model).
+
+   Boundaries modelled as the code has them: an OOB datagram has a readable conv and sn = 0,
+   so an OOB datagram of another conversation resets the session (B3); a parity packet has
+   no readable conv and is handed to the live session (B3); there is no FIN, so after a
+   server-side Close the address has no session and the peer's next datagram creates one
+   (B9). *)
 From Coq Require Import ZArith List Bool.
 From KV.Base Require Import Consts Word.
 Import ListNotations.
@@ -131,9 +138,15 @@ Section Listener.
   Definition reset_close (l : listener) (a : addr) (e : entry) : listener :=
     if e_dead e then l else close_at l a.
 
-  (* sess.go 1260-1272: backlog test, newUDPSession, kcpInput, table insert, queue append *)
+  (* a closed listener creates no more sessions; nor does one whose backlog is full *)
+  Definition no_room (l : listener) : bool := closed l || backlog_full l.
+
+  (* sess.go, tail of packetInput: die test, backlog test, newUDPSession, kcpInput, table
+     insert, queue append.  (The closeBacklog call after the append only matters when
+     Listener.Close ran between the die test and the append; the outcome is then that of
+     the order "packetInput, then Listener.Close".) *)
   Definition create (l : listener) (conv : Z) (data : bytes) (a : addr) : listener :=
-    if backlog_full l then l
+    if no_room l then l
     else
       let s := sess_input (sess_new conv a) data in
       mkL (set_key addr_eqb a (mkE (next_id l) false s) (sessions l))
@@ -229,18 +242,30 @@ Section Listener.
   Definition l_close_session (l : listener) (id : Z) : listener :=
     l_close_end (l_close_begin l id) id.
 
-  (* Listener.Close: packetInput does not look at l.die (finding F14 is about that). *)
+  (* Listener.Close, first step: l.die is closed.  From then on packetInput creates no
+     session (datagrams of live sessions are still dispatched). *)
   Definition l_close (l : listener) : listener :=
     mkL (sessions l) (accepts l) (next_id l) true (pending l).
 
+  (* Listener.closeBacklog, one round of its loop: `s := <-l.chAccepts; s.Close()` up to the
+     point where `die` of s is closed; the rest of that Close is an EvCloseEnd like any
+     other.  (Listener.Close = l_close, then this for every queued session.) *)
+  Definition l_backlog_close (l : listener) : listener :=
+    match accepts l with
+    | [] => l
+    | (_, id) :: r => l_close_begin (mkL (sessions l) r (next_id l) (closed l) (pending l)) id
+    end.
+
   (* The atomic sections of the code, in any interleaving: a datagram processed by
-     packetInput, an Accept, the two steps of an application's Close, Listener.Close. *)
+     packetInput, an Accept, the two steps of an application's Close, the two kinds of step
+     of Listener.Close. *)
   Inductive event :=
   | EvPacket (raw : bytes) (a : addr)
   | EvAccept
   | EvCloseBegin (id : Z)
   | EvCloseEnd (id : Z)
-  | EvListenerClose.
+  | EvListenerClose
+  | EvBacklogClose.
 
   Definition step (l : listener) (ev : event) : listener :=
     match ev with
@@ -249,6 +274,7 @@ Section Listener.
     | EvCloseBegin id => l_close_begin l id
     | EvCloseEnd id => l_close_end l id
     | EvListenerClose => l_close l
+    | EvBacklogClose => l_backlog_close l
     end.
 
   Definition run (l : listener) (evs : list event) : listener := fold_left step evs l.
@@ -257,7 +283,7 @@ Section Listener.
 
   (* "creation event": the datagram passes the gate, has a readable conv, comes from an
      address with no live session - or with a session of another conversation and sn = 0 -
-     and the backlog has room. *)
+     and the backlog has room (and the listener is not closed). *)
   Definition wants_session (l : listener) (raw : bytes) (a : addr) : option (Z * bytes) :=
     match gate_ok raw with
     | None => None
@@ -276,7 +302,7 @@ Section Listener.
 
   Definition creation_event (l : listener) (raw : bytes) (a : addr) : bool :=
     match wants_session l raw a with
-    | Some _ => negb (backlog_full l)
+    | Some _ => negb (no_room l)
     | None => false
     end.
 
@@ -293,14 +319,18 @@ Section Listener.
     | ev :: r => new_accepts l ev ++ created_log (step l ev) r
     end.
 
-  Fixpoint accepted_log (l : listener) (evs : list event) : list (addr * Z) :=
+  (* what leaves the accept queue: handed to the application by Accept, or taken (and
+     closed) by Listener.Close *)
+  Definition dequeued (l : listener) (ev : event) : list (addr * Z) :=
+    match ev with
+    | EvAccept | EvBacklogClose => match accepts l with x :: _ => [x] | [] => [] end
+    | _ => []
+    end.
+
+  Fixpoint dequeued_log (l : listener) (evs : list event) : list (addr * Z) :=
     match evs with
     | [] => []
-    | ev :: r =>
-        match ev with
-        | EvAccept => match fst (l_accept l) with Some x => [x] | None => [] end
-        | _ => []
-        end ++ accepted_log (step l ev) r
+    | ev :: r => dequeued l ev ++ dequeued_log (step l ev) r
     end.
 
   Fixpoint creation_events_at (a : addr) (l : listener) (evs : list event) : nat :=
@@ -359,6 +389,7 @@ Arguments EvAccept {addr}.
 Arguments EvCloseBegin {addr}.
 Arguments EvCloseEnd {addr}.
 Arguments EvListenerClose {addr}.
+Arguments EvBacklogClose {addr}.
 
 (* ------------------------------------------------------------------------------------ *)
 (* The recording session used by the differential run and by the examples: its state is the
